@@ -5,6 +5,7 @@ use serde_json::Value as J;
 use crate::core::{replay_report, Ctx, Failure};
 
 pub mod c03;
+pub mod c04;
 pub mod c06;
 pub mod c07;
 pub mod c08;
@@ -23,6 +24,7 @@ pub mod c20;
 pub fn run(ctx: &Ctx) -> i32 {
     match ctx.prop {
         "C03" => c03::run(ctx),
+        "C04" => c04::run(ctx),
         "C06" => c06::run(ctx),
         "C07" => c07::run(ctx),
         "C08" => c08::run(ctx),
@@ -47,6 +49,7 @@ pub fn run(ctx: &Ctx) -> i32 {
 pub fn replay(prop: &'static str, path: &str) -> i32 {
     let f: Box<dyn Fn(&J) -> Vec<Failure>> = match prop {
         "C03" => Box::new(c03::replay),
+        "C04" => Box::new(c04::replay),
         "C06" => Box::new(c06::replay),
         "C07" => Box::new(c07::replay),
         "C08" => Box::new(c08::replay),
